@@ -225,7 +225,7 @@ def r2(ctx):
     ctx.require(len(solver_calls) == 3, "expected the three solver constructions in run_whatshap")
     ok = all(s.args and u(s.args[0]) == reads for s in solver_calls)
     defs = [v for _, v in util.assignments_to(run.node, reads)]
-    ok_def = len(defs) == 1 and isinstance(defs[0], ast.Call) and u(defs[0].func) == "merge_readsets"
+    ok_def = (None if not defs else (len(defs) == 1 and isinstance(defs[0], ast.Call) and u(defs[0].func) == "merge_readsets"))
     ctx.ob(run.qual, "listed-reads-are-the-solvers-reads", ok and ok_def, run.loc(c), "the read list gets `%s`, the single merge_readsets(...) value every solver is constructed from" % reads if ok and ok_def else "the read list's read set `%s` is not the one value all solvers are constructed from" % reads)
     part = c.args[1]
     okp = isinstance(part, ast.Call) and isinstance(part.func, ast.Attribute) and part.func.attr == "get_optimal_partitioning"
@@ -266,10 +266,10 @@ def r2(ctx):
         ctx.ob(w.qual, "phase-set-of-first-variant-plus-1", None, w.loc(), "cannot read the row that ReadList.write prints")
     else:
         pcs = [c_ for c_ in cells if c_.startswith("sample_components[")]
-        okps = len(pcs) == 1 and pcs[0].endswith("][%s[0].position] + 1" % rd)
+        okps = (None if not pcs else (len(pcs) == 1 and pcs[0].endswith("][%s[0].position] + 1" % rd)))
         ctx.ob(w.qual, "phase-set-of-first-variant-plus-1", okps, w.loc(prs[0]), "the row carries components[read[0].position] + 1 as phase set" if okps else "no cell of the printed row is components[%s[0].position] + 1: %s" % (rd, cells))
         inv = util.single_def(w.node, "numeric_id_to_name")
-        okc = len(pcs) == 1 and pcs[0].startswith("sample_components[numeric_id_to_name[%s.sample_id]][" % rd) and inv is not None and u(inv) == "numeric_sample_ids.inverse_mapping()"
+        okc = (None if not pcs else (len(pcs) == 1 and pcs[0].startswith("sample_components[numeric_id_to_name[%s.sample_id]][" % rd) and inv is not None and u(inv) == "numeric_sample_ids.inverse_mapping()"))
         ctx.ob(w.qual, "components-of-the-reads-sample", okc, w.loc(), "components are those of the read's own sample" if okc else "components are not looked up by the read's own sample")
     okp = cells is not None and "haplotype" in cells and any(c_.startswith("sample_components[") for c_ in cells) and any(k.arg == "file" and u(k.value) == "self._file" for k in prs[0].keywords)
     ctx.ob(w.qual, "row-printed-to-the-list", okp, w.loc(prs[0]) if prs else w.loc(), "one row per read with its phase set and haplotype goes to the list file" if okp else "ReadList.write does not print phase set / haplotype to self._file")
@@ -317,7 +317,7 @@ def r3(ctx):
         has_store = any(st.stmt.parent is blk for st in gt_stores)
         ctx.ob(w.qual, "listed-change-is-a-store", has_store, w.loc(a), "every listed change sits next to the GT store it reports" if has_store else "a genotype change is listed without a GT store in the same block")
     rets = [n for n in walk_function(w.node) if isinstance(n, ast.Return)]
-    ok = len(rets) == 1 and u(rets[0].value) == "genotype_changes"
+    ok = (None if not rets else (len(rets) == 1 and u(rets[0].value) == "genotype_changes"))
     ctx.ob(w.qual, "returns-the-changes", ok, w.loc(rets[0]) if rets else w.loc(), "write returns genotype_changes" if ok else "write does not return genotype_changes")
     # run_whatshap: the returned list is printed for every phased chromosome; non-empty => distrust
     run = ctx.func(PH + ".run_whatshap")
@@ -358,7 +358,7 @@ def decode_layout(e):
     """RecombinationEvent(p1, p2, X % 2, Y % 2, X // 2, Y // 2, ...) with X, Y two different expressions: (ok, text)."""
     args = e.args[2:6]
     txt = [u(x) for x in args]
-    ok = len(args) == 4 and all(isinstance(x, ast.BinOp) and isinstance(x.right, ast.Constant) and x.right.value == 2 for x in args)
+    ok = (None if not args else (len(args) == 4 and all(isinstance(x, ast.BinOp) and isinstance(x.right, ast.Constant) and x.right.value == 2 for x in args)))
     if ok:
         ok = isinstance(args[0].op, ast.Mod) and isinstance(args[1].op, ast.Mod) and isinstance(args[2].op, ast.FloorDiv) and isinstance(args[3].op, ast.FloorDiv)
         X, Y = u(args[0].left), u(args[1].left)
@@ -579,7 +579,7 @@ def r4(ctx):
     loops = [n for n in walk_function(fr.node) if isinstance(n, ast.For)]
     block_loops = [n for n in loops if ".items()" in u(n.iter) and isinstance(n.target, ast.Tuple)]
     comp_loop = [n for n in block_loops if u(n.iter) == "%s.items()" % util.params_of(fr.node)[1]]
-    ok = len(comp_loop) == 1 and any(isinstance(c, ast.Call) and isinstance(c.func, ast.Attribute) and c.func.attr == "append" and u(c.func.value) == "blocks[%s]" % u(comp_loop[0].target.elts[1]) and u(c.args[0]) == u(comp_loop[0].target.elts[0]) for c in ast.walk(comp_loop[0]))
+    ok = (None if not comp_loop else (len(comp_loop) == 1 and any(isinstance(c, ast.Call) and isinstance(c.func, ast.Attribute) and c.func.attr == "append" and u(c.func.value) == "blocks[%s]" % u(comp_loop[0].target.elts[1]) and u(c.args[0]) == u(comp_loop[0].target.elts[0]) for c in ast.walk(comp_loop[0]))))
     ctx.ob(fr.qual, "blocks-group-by-component", ok, fr.loc(), "positions are grouped by their component id" if ok else "positions are not grouped as blocks[component].append(position)")
     evs = [c for c in ctx.prog.calls_in(fr.node) if u(c.func) == "RecombinationEvent"]
     ctx.require(len(evs) == 1, "RecombinationEvent construction not found")
